@@ -5,10 +5,14 @@ from common import R, Rmat, cfl, fl, max_rel_err, ModelError
 
 from common import wiring_pre_build as pre_build  # noqa: E402,F401
 
-LEAN_MODULES = ["PyomaVerif.Props.C13", "PyomaVerif.Props.C13Parseval", "PyomaVerif.Props.C13Phase", "PyomaVerif.Mutants.C13", "PyomaVerif.Props.WiringRun"]
+LEAN_MODULES = ["PyomaVerif.Props.C13", "PyomaVerif.Props.C13Parseval", "PyomaVerif.Props.C13Phase", "PyomaVerif.Mutants.C13", "PyomaVerif.Props.WiringRun", "PyomaVerif.Props.WiringStore", "PyomaVerif.Props.WiringClass", "PyomaVerif.Props.WiringCalls"]
 THEOREMS = [
     # call-site wiring of the class layer, regenerated from /repo on every run (translate_wiring.py)
     "PV.WiringRun.C13_run_spectral",
+    "PV.WiringStore.C13_run_result_store",
+    "PV.WiringClass.C13_run_inherited",
+    "PV.WiringCalls.C13_fdd_run_calls",
+    "PV.WiringCalls.C05_plscf_run_calls",
     "PV.C13.sd_pairing_per_entry",
     "PV.C13.sd_pairing_per",
     "PV.C13.sd_pairing_cor",
